@@ -119,7 +119,9 @@ func Sanitize(query string) string {
 		default:
 			state = idle
 			cast = c == ':' && i > 0 && query[i-1] == ':'
-			operand = c != ')'
+			// A closing parenthesis ends an operand, and so does a star that stands where an operand
+			// is expected (a wildcard, not a multiplication).
+			operand = c != ')' && !(c == '*' && operand)
 			i++
 		}
 	}
@@ -138,7 +140,10 @@ func regexEnd(query string, i int) int {
 	for j := i + 1; j < len(query) && query[j] != '\n' && query[j] != '\r'; j++ {
 		switch query[j] {
 		case '\\':
-			j++
+			// Only a slash can be escaped; any other backslash stands for itself.
+			if j+1 < len(query) && query[j+1] == '/' {
+				j++
+			}
 		case '/':
 			return j + 1
 		}
